@@ -92,6 +92,29 @@ def gen(pid, tier, rng, n=None):
             progs.append((t, thread_prog(rng, u, rng.randint(1, 3), (pid in ("C01", "C03", "C05") and rng.random() < 0.3) or (pid == "C10" and rng.random() < 0.8),
                                          2 if pid == "C02" else 1, only if t == 0 else (others if others and rng.random() < 0.8 else None),
                                          sh0 if t == 0 else 0.35, sweep=0.35 if pid == "C02" else 0.0)))
+        handoff = None
+        if pid == "C10" and rng.random() < 0.2:
+            # hand-off template: thread 0 panics while it holds a poisonable root exclusively; thread 1 is already waiting
+            # for that root and runs as soon as thread 0 has released (with a pause after every release this is the moment
+            # between the release and whatever the unwinding code does next)
+            pr = [c for c in u.roots if b.desc[c].startswith("P(") and 1 <= len(b.locks_of[c]) <= 3]
+            if pr:
+                root = rng.choice(pr)
+                nl_ = len(b.locks_of[root])
+                if rng.random() < 0.6:
+                    body = [("r", rng.randrange(nl_))] * rng.randint(0, 1) + [("panic",)]
+                    p0 = [("get",), ("acq", root, "ex", rng.choice(["scoped", "scopedtry"]), rng.random() < 0.5, body)]
+                else:
+                    p0 = [("get",), ("acq", root, "ex", rng.choice(["guard", "try"])), ("panic",)]
+                m1 = "sh" if b.sharable[root] and rng.random() < 0.3 else "ex"
+                fl1 = rng.choice(["guard", "guard", "scoped"])
+                p1 = [("get",), ("acq", root, m1, fl1)] + ([("gdrop",)] if fl1 == "guard" else [])
+                if fl1 == "scoped":
+                    p1[-1] = ("acq", root, m1, "scoped", True, [("r", 0)])
+                p1 += [("get",), ("acq", root, "ex", "try"), ("gdrop",)]
+                progs = [(0, p0), (1, p1)]
+                nt = 2
+                handoff = [0] * (1 + nl_) + [1, 1] + [0, 1, 1, 1, 1] * (nl_ + 2) + [0] * 6 + [1] * 12
         total = sum(len(p) for _, p in progs)
         sched = [rng.randrange(nt) for _ in range(rng.randint(total, 4 * total + 4))]
         if rng.random() < 0.2:
@@ -111,8 +134,17 @@ def gen(pid, tier, rng, n=None):
             pct = (prios, sorted(rng.sample(range(steps), rng.randint(0, 3))))
             sched = []
             fuel = 40 * total + 60
-        scens.append(b.scen(progs=progs, sched=(pol, sched, pct), fuel=fuel,
-                            meta={"nt": nt, "policy": pol, "pct": bool(pct), "roots": [b.desc[c] for c in u.roots]}))
+        if handoff:
+            sched, pct = handoff, None
+        sc_ = b.scen(progs=progs, sched=(pol, sched, pct), fuel=fuel,
+                     meta={"nt": nt, "policy": pol, "pct": bool(pct), "roots": [b.desc[c] for c in u.roots]})
+        # a quarter of the runs (half for C10): every thread pauses after each release, so that the others can see the
+        # state between a release and what the releasing code does next (flag stores, key drop)
+        if rng.random() < (0.5 if pid == "C10" else 0.25) or (handoff and rng.random() < 0.8):
+            sc_.yr = True
+            sc_.fuel = 2 * fuel
+            sc_.meta["yield_after_release"] = True
+        scens.append(sc_)
     return scens
 
 
@@ -136,7 +168,8 @@ def coq_expr(pid, s, r, suffix=""):
 
 
 def classify(s, r):
-    out = [f"threads={s.meta['nt']}", f"policy={s.meta['policy']}", f"scheduler={'priority' if s.meta.get('pct') else 'list'}", "status=" + (r["bobs"] or "?").split(" | ")[0]]
+    out = [f"threads={s.meta['nt']}", f"policy={s.meta['policy']}", f"scheduler={'priority' if s.meta.get('pct') else 'list'}", "status=" + (r["bobs"] or "?").split(" | ")[0],
+           f"pause_after_release={'yes' if getattr(s, 'yr', False) else 'no'}"]
     if r["bobs"] and "BWait" in r["bobs"]:
         out.append("waits=yes")
     return out
